@@ -31,7 +31,14 @@ func TestSM4Million(t *testing.T) {
 		t.Fatal(g)
 	}
 }
-func hx2(b []byte) string { const h = "0123456789abcdef"; o := make([]byte, 0, 2*len(b)); for _, v := range b { o = append(o, h[v>>4], h[v&15]) }; return string(o) }
+func hx2(b []byte) string {
+	const h = "0123456789abcdef"
+	o := make([]byte, 0, 2*len(b))
+	for _, v := range b {
+		o = append(o, h[v>>4], h[v&15])
+	}
+	return string(o)
+}
 
 type pipeEnd struct {
 	r *io.PipeReader
